@@ -38,7 +38,7 @@ def main():
             os.makedirs(os.path.join(wt, crate, "tests"), exist_ok=True)
             tdst = os.path.join(wt, crate, "tests", "seed_demo.rs"); shutil.copy(os.path.join(dst, demos[0]), tdst)
             cmd = "cargo test -p %s --offline %s -j 6 --test seed_demo" % (crate, feat)
-            mf = re.search(r'RUSTFLAGS="([^"]*)"', meta.get("demo_cmd", ""))
+            mf = re.search(r'RUSTFLAGS=["\']([^"\']*)["\']', meta.get("demo_cmd", ""))
             envd = dict(tdir); envd.update({"RUSTFLAGS": mf.group(1)} if mf else {})
             rc, out = sh(cmd, cwd=wt, env=envd); os.remove(tdst)
         elif os.path.isdir(os.path.join(dst, "demo")):
